@@ -29,6 +29,7 @@ type aliasTable struct {
 	fieldFwd map[string]string // canonicalType.actualField -> canonical field name
 	fieldRev map[string]string // canonicalType.canonicalField -> actual field name
 	funcFwd  map[string]string // actual function name -> canonical function name
+	globRev  map[string]string // canonical package variable -> actual name
 	notes    []string
 }
 
@@ -42,7 +43,7 @@ func rawTypeStr(t types.Type) string { return shortenRaw(types.TypeString(t, nil
 
 // BuildAliases compares the loaded program with the reference shapes.
 func (p *Prog) BuildAliases() {
-	at := &aliasTable{typeFwd: map[string]string{}, typeRev: map[string]string{}, fieldFwd: map[string]string{}, fieldRev: map[string]string{}, funcFwd: map[string]string{}}
+	at := &aliasTable{typeFwd: map[string]string{}, typeRev: map[string]string{}, fieldFwd: map[string]string{}, fieldRev: map[string]string{}, funcFwd: map[string]string{}, globRev: map[string]string{}}
 	curAliases = nil
 	type actual struct {
 		name   string
@@ -182,6 +183,7 @@ func (p *Prog) BuildAliases() {
 	// reference tree
 	curAliases = at // type aliases are needed to render names and signatures
 	actualSig := map[string]string{}
+	actualFn := map[string]*ssa.Function{}
 	for _, fn := range p.ModFuncs {
 		if fn.Parent() != nil || p.IsTestFile(fn.Pos()) || strings.Contains(p.Pos(fn.Pos()), ".pb.go") {
 			continue
@@ -191,7 +193,8 @@ func (p *Prog) BuildAliases() {
 			continue
 		}
 		if _, dup := actualSig[n]; !dup {
-			actualSig[n] = TypeStr(fn.Signature)
+			actualSig[n] = SigStr(fn.Signature)
+			actualFn[n] = fn
 		}
 	}
 	ownerOf := func(n string) string { return n[:strings.LastIndex(n, ".")] }
@@ -210,23 +213,142 @@ func (p *Prog) BuildAliases() {
 	sort.Strings(goneF)
 	sort.Strings(newF)
 	takenF := map[string]bool{}
+	unexp := func(n string) bool {
+		b := baseOf(n)
+		return b != "" && !(b[0] >= 'A' && b[0] <= 'Z')
+	}
+	// renamed names are left out of the callee comparison
+	moved := map[string]bool{}
 	for _, g := range goneF {
-		if b := baseOf(g); b != "" && b[0] >= 'A' && b[0] <= 'Z' {
-			continue // a renamed exported function is an API change, not a rename
+		moved[g] = true
+	}
+	for _, f := range newF {
+		moved[f] = true
+	}
+	stable := func(xs []string) map[string]bool {
+		m := map[string]bool{}
+		for _, x := range xs {
+			if !moved[x] {
+				m[x] = true
+			}
 		}
+		return m
+	}
+	sim := func(g, f string) float64 {
+		a, b := stable(refCalleesFor(p.GOOS, g)), stable(p.CalleeNames(actualFn[f]))
+		if len(a) == 0 && len(b) == 0 {
+			return 1
+		}
+		n := 0
+		for x := range a {
+			if b[x] {
+				n++
+			}
+		}
+		m := len(a)
+		if len(b) > m {
+			m = len(b)
+		}
+		return float64(n) / float64(m)
+	}
+	candsOf := func(g string) []string {
 		var cands []string
 		for _, f := range newF {
-			if !takenF[f] && ownerOf(f) == ownerOf(g) && actualSig[f] == refSigs[g] {
-				if b := baseOf(f); b != "" && b[0] >= 'A' && b[0] <= 'Z' {
-					continue
-				}
+			if !takenF[f] && unexp(f) && ownerOf(f) == ownerOf(g) && actualSig[f] == refSigs[g] {
 				cands = append(cands, f)
 			}
 		}
-		if len(cands) == 1 {
-			at.funcFwd[cands[0]] = g
-			takenF[cands[0]] = true
-			at.notes = append(at.notes, "function "+cands[0]+" is treated as the renamed "+g)
+		return cands
+	}
+	resolvedG := map[string]bool{}
+	bind := func(f, g, how string) {
+		at.funcFwd[f] = g
+		takenF[f] = true
+		resolvedG[g] = true
+		at.notes = append(at.notes, "function "+f+" is treated as the renamed "+g+how)
+	}
+	for _, g := range goneF {
+		if !unexp(g) {
+			continue // a renamed exported function is an API change, not a rename
+		}
+		if cands := candsOf(g); len(cands) == 1 {
+			// the candidate must not be wanted by another vanished function of the same shape
+			rivals := 0
+			for _, g2 := range goneF {
+				if g2 != g && unexp(g2) && ownerOf(g2) == ownerOf(g) && refSigs[g2] == refSigs[g] {
+					rivals++
+				}
+			}
+			if rivals == 0 {
+				bind(cands[0], g, "")
+			}
+		}
+	}
+	// several functions of one owner and one signature renamed together: the
+	// statically resolved callees decide, when the best match is mutual and clear
+	for _, g := range goneF {
+		if !unexp(g) || resolvedG[g] {
+			continue
+		}
+		best, bestS, second := "", -1.0, -1.0
+		for _, f := range candsOf(g) {
+			if s := sim(g, f); s > bestS {
+				best, second, bestS = f, bestS, s
+			} else if s > second {
+				second = s
+			}
+		}
+		if best == "" || bestS < 0.5 || bestS-second < 0.2 {
+			continue
+		}
+		mutual := true
+		for _, g2 := range goneF {
+			if g2 != g && unexp(g2) && !resolvedG[g2] && ownerOf(g2) == ownerOf(g) && refSigs[g2] == refSigs[g] && sim(g2, best) >= bestS {
+				mutual = false
+			}
+		}
+		if mutual {
+			bind(best, g, " (same signature as other renamed functions; recognised by its callees)")
+		}
+	}
+	// 4. renamed unexported package variables: same package, same type, the
+	// only vanished and the only new variable of that type
+	actGlob := map[string]string{}
+	for _, pk := range p.Pkgs {
+		short := Short(pk.PkgPath)
+		if strings.HasPrefix(short, "cmd/") || short == "bench" {
+			continue
+		}
+		sc := pk.Types.Scope()
+		for _, n := range sc.Names() {
+			if v, ok := sc.Lookup(n).(*types.Var); ok && !p.IsTestFile(v.Pos()) {
+				actGlob[short+"."+n] = TypeStr(v.Type())
+			}
+		}
+	}
+	var goneG []string
+	for n := range refGlobals {
+		if _, ok := actGlob[n]; !ok && unexp(n) {
+			goneG = append(goneG, n)
+		}
+	}
+	sort.Strings(goneG)
+	for _, g := range goneG {
+		var cands []string
+		for n, t := range actGlob {
+			if _, old := refGlobals[n]; !old && unexp(n) && ownerOf(n) == ownerOf(g) && t == refGlobals[g] {
+				cands = append(cands, n)
+			}
+		}
+		rivals := 0
+		for _, g2 := range goneG {
+			if g2 != g && ownerOf(g2) == ownerOf(g) && refGlobals[g2] == refGlobals[g] {
+				rivals++
+			}
+		}
+		if len(cands) == 1 && rivals == 0 {
+			at.globRev[g] = baseOf(cands[0])
+			at.notes = append(at.notes, "package variable "+cands[0]+" is treated as the renamed "+g)
 		}
 	}
 	sort.Strings(at.notes)
@@ -326,4 +448,121 @@ func (p *Prog) ParamName(q *ssa.Parameter) string {
 		}
 	}
 	return q.Name()
+}
+
+// SigStr renders a signature by its parameter and result types only:
+// parameter names are not part of what a function is.
+func SigStr(sig *types.Signature) string {
+	var b strings.Builder
+	b.WriteString("func(")
+	for i := 0; i < sig.Params().Len(); i++ {
+		if i > 0 {
+			b.WriteString(", ")
+		}
+		t := sig.Params().At(i).Type()
+		if sig.Variadic() && i == sig.Params().Len()-1 {
+			b.WriteString("..." + TypeStr(t.(*types.Slice).Elem()))
+		} else {
+			b.WriteString(TypeStr(t))
+		}
+	}
+	b.WriteString(") (")
+	for i := 0; i < sig.Results().Len(); i++ {
+		if i > 0 {
+			b.WriteString(", ")
+		}
+		b.WriteString(TypeStr(sig.Results().At(i).Type()))
+	}
+	b.WriteString(")")
+	return b.String()
+}
+
+// CalleeNames lists the statically resolved callees of fn and its closures
+// (module functions by the checker's names, others by their full names).
+func (p *Prog) CalleeNames(fn *ssa.Function) []string {
+	if fn == nil {
+		return nil
+	}
+	seen := map[string]bool{}
+	var walk func(f *ssa.Function)
+	walk = func(f *ssa.Function) {
+		for _, b := range f.Blocks {
+			for _, in := range b.Instrs {
+				c, ok := in.(ssa.CallInstruction)
+				if !ok {
+					continue
+				}
+				if cal := c.Common().StaticCallee(); cal != nil && cal.Parent() == nil {
+					if p.InModule(cal) {
+						seen[p.fnNameRaw(cal)] = true
+					} else {
+						seen[cal.String()] = true
+					}
+				} else if c.Common().IsInvoke() {
+					seen["invoke "+c.Common().Method.Name()] = true
+				}
+			}
+		}
+		for _, a := range f.AnonFuncs {
+			walk(a)
+		}
+	}
+	walk(fn)
+	var out []string
+	for n := range seen {
+		out = append(out, n)
+	}
+	sort.Strings(out)
+	return out
+}
+
+// Global looks a package-level variable up by the name it has on the
+// reference tree ("fsutil", "rand"); a renamed unexported variable is found
+// under its new name.
+func (p *Prog) Global(pkg, name string) *ssa.Global {
+	pk := p.SPkgs[pkg]
+	if pk == nil {
+		return nil
+	}
+	if curAliases != nil {
+		if a, ok := curAliases.globRev[pkg+"."+name]; ok {
+			name = a
+		}
+	}
+	g, _ := pk.Members[name].(*ssa.Global)
+	return g
+}
+
+// FreeVarName is the name the rules use for a captured variable: a captured
+// parameter of an enclosing function goes by that parameter's reference name.
+func (p *Prog) FreeVarName(fv *ssa.FreeVar) string {
+	if fv.Parent() == nil {
+		return fv.Name()
+	}
+	for f := fv.Parent().Parent(); f != nil; f = f.Parent() {
+		for _, q := range f.Params {
+			if q.Name() == fv.Name() {
+				return p.ParamName(q)
+			}
+		}
+	}
+	return fv.Name()
+}
+
+// refCalleesFor: the reference callees of fn on goos (entries equal to the
+// linux ones are stored once; the BSDs share freebsd's).
+func refCalleesFor(goos, fn string) []string {
+	order := []string{goos, "linux"}
+	switch goos {
+	case "openbsd", "netbsd", "dragonfly":
+		order = []string{goos, "freebsd", "linux"}
+	}
+	for _, g := range order {
+		if m, ok := refCallees[g]; ok {
+			if cs, ok := m[fn]; ok {
+				return cs
+			}
+		}
+	}
+	return nil
 }
